@@ -17,8 +17,7 @@ Native == (0..(N - 1)) \cup Edge \cup {Rand30(i) : i \in 1..40}
 \* operands beyond 32 bits
 RECURSIVE PowB(_)
 PowB(k) == IF k = 0 THEN <<1>> ELSE Shift(PowB(k - 1))
-RECURSIVE Dbl(_)
-Dbl(k) == IF k = 0 THEN <<1>> ELSE MulSmall(Dbl(k - 1), 2)
+Dbl(k) == TwoTo(k)
 TenTo30 == <<0, 0, 0, 0, 0, 0, 0, 100>>
 Wide == {TwoTo63, Sub(TwoTo63, <<1>>), Add(TwoTo63, <<1>>), Dbl(64), Dbl(31), Dbl(32), TenTo30,
          PowB(1), PowB(2), PowB(3), PowB(5), Sub(PowB(2), <<1>>), Sub(PowB(4), <<1>>), Sub(PowB(7), <<1>>),
